@@ -42,6 +42,12 @@ def _set(names):
     return "{" + ", ".join('"%s"' % n for n in sorted(names)) + "}"
 
 
+def _crash_summary(err):
+    keep = [ln.strip() for ln in err.splitlines() if "ERROR: AddressSanitizer" in ln or ln.startswith("SUMMARY:")
+            or "runtime error:" in ln or ln.lstrip().startswith("#0 ") or ln.lstrip().startswith("#1 ") or ln.lstrip().startswith("#2 ")]
+    return " | ".join(keep[:8])[:900] if keep else err[-600:]
+
+
 def _cfg(ctx, name, dev, hist, menu, maxops, sizes, invs, prop=""):
     text = ("CONSTANTS Dev = %s Hist = %s Menu = \"%s\" MaxOps = %d Sizes = %s\nINIT Init\nNEXT Next\nVIEW View\n"
             "INVARIANTS %s\n%s" % (_set(dev), "TRUE" if hist else "FALSE", menu, maxops, sizes, invs, prop))
@@ -185,7 +191,7 @@ def replay_behs(ctx, exe, behs, ninst):
                     raise Broken("replay harness failed rc=%s: %s" % (hr.rc, hr.err[-2000:]))
                 # the real code crashed (sanitizer report / signal) on a model-generated behaviour
                 ctx.violation("TraceState crashed (rc=%s) while replaying a TLC behaviour (src=%s): %s" % (
-                    hr.rc, nxt["src"], hr.err[-600:]), {"kind": "behaviour", "beh": nxt})
+                    hr.rc, nxt["src"], _crash_summary(hr.err)), {"kind": "behaviour", "beh": nxt})
     took = {}
     reports = 0
     stopped = 0
@@ -278,7 +284,7 @@ def record_and_validate(ctx, exe):
     for hr in hrs:
         if hr.crashed:
             tail = [ln for ln in hr.lines[-40:]]
-            ctx.violation("TraceState crashed (rc=%s) during a random history: %s" % (hr.rc, hr.err[-600:]),
+            ctx.violation("TraceState crashed (rc=%s) during a random history: %s" % (hr.rc, _crash_summary(hr.err)),
                           {"kind": "crash", "tail": tail})
             last = max([i for i, ln in enumerate(hr.lines) if '"e":"Cfg"' in ln] or [0])
             lines += hr.lines[:last]
@@ -354,9 +360,26 @@ def replay(ctx, path):
     exe = build.harness("c14_tracestate", ["c14_tracestate.cc"], "asan", need_sdk=False)
     if rep.get("kind") == "behaviour":
         b = rep["beh"]
-        replay_behs(ctx, exe, [{"steps": b["steps"], "src": b.get("src", "replay")}], {})
-        # same concretisation as recorded
-        ctx.extra["note"] = "behaviour re-run with a fresh concretisation seed derived from VERIF_SEED"
+        ctx.traces += 1
+        # integrity of the stored case: its expectations must be what the spec computes - the behaviour,
+        # written as a log with the expected results as "observed" ones, must be accepted by the trace spec
+        ev = [{"e": "Cfg"}]
+        for st in b["steps"]:
+            if st["op"] == "from":
+                ev.append({"e": "From", "hdr": st["hdr"], "res": st["exp"]})
+            elif st["op"] == "set":
+                ev.append({"e": "Set", "o": st["o"], "k": st["k"], "v": st["v"], "res": st["exp"]})
+            elif st["op"] == "del":
+                ev.append({"e": "Del", "o": st["o"], "k": st["k"], "res": st["exp"]})
+            elif st["op"] == "rt":
+                ev.append({"e": "Rt", "o": st["o"], "res": st["exp"]})
+            elif st["op"] == "get":
+                ev.append({"e": "Get", "o": st["o"], "k": st["k"], "found": st["exp"][0], "val": st["exp"][1]})
+        r = tvdev.validate(ctx, "TraceStateTrace", _tv_cfg(ctx, "tvall.cfg", ALL_DEVS), [json.dumps(e) for e in ev],
+                           chunk=1, parallel=1, tag="stored")
+        ctx.traces -= 1          # (that was the stored expectation, not an execution of the code)
+        if r["rejected"]:
+            raise Broken("the stored behaviour is not a behaviour of TraceState.tla (edited or stale replay file)")
         p = ctx.rundir.file("one.ndjson")
         with open(p, "w") as f:
             f.write(json.dumps({"id": 0, "inst": b["inst"], "steps": b["steps"]}) + "\n")
